@@ -36,7 +36,9 @@ def showTables (s : RS) : String :=
 
 def showEvents (os : List Out) : String :=
   let strs := os.map showOut
-  let wire := sortStrs (strs.filter (·.startsWith ">"))
+  -- a Return for a call cancelled by the connection's own shutdown races the abort: it may or may not get out
+  let aborting := strs.contains ">Abort"
+  let wire := sortStrs ((strs.filter (·.startsWith ">")).filter (fun w => !(aborting && w.startsWith ">Ret(" && w.endsWith ",exc)")))
   let deliv := strs.filter (·.startsWith "@")
   let rest := sortStrs (strs.filter (fun s => !(s.startsWith ">") && !(s.startsWith "@")))
   " ".intercalate (wire ++ deliv ++ rest)
